@@ -12,7 +12,7 @@ META = {
     'text': 'Decides for tarpc\'s own code that no value chosen by the peer (anything read from the transport or produced by a Deserialize impl) or by a local caller (the context of a call) '
             'reaches a partial operation unsanitised: Instant/SystemTime +/- Duration, Duration arithmetic, DelayQueue::insert/reset, rfc3339 rendering, integer division/remainder, '
             'indexing and slicing (for strings also the content: char boundaries), copy_from_slice, split_at, removal/insertion by index, capacity requests, and unwrap/expect; taint flows through aggregates, lengths, adaptors and combinator closures. The five sites of defect D2 (decode overflow, two timer arms, two span renderings) are the instances this rule reports when the clamp is removed. '
-            'Request ids only ever reach total operations (map keys, equality). Every explicit panic site in the crate is inventoried with the provenance of its operand. '
+            'Request ids only ever reach total operations (map keys, equality). Every explicit panic site in the crate is inventoried with the provenance of its operand. The server end never goes idle without the transport read registered, whatever was ignored before (C16.serve, every decorator chain; back-pressure from a blocked sink is D5 and not judged here). '
             'NOT decided (not applicable to static analysis of tarpc): behaviour of the framed decoders on arbitrary byte strings (tokio-util, tokio-serde, serde_json, bincode) and allocation exhaustion.',
     'note': 'Trusted: the partial-operation table (std Instant/SystemTime/Duration arithmetic panics on overflow, DelayQueue::insert panics beyond its range, humantime fails past year 9999), '
             'Instant::duration_since saturates. External decoders are out of scope.',
